@@ -135,6 +135,27 @@ def startline():
 	return o
 
 
+@section
+def headers():
+	from httoop.header.element import HEADER, HeaderElement
+	from httoop.header.headers import Headers
+	from httoop.header.messaging import Trailer
+	o = ['/-! header/headers.py, header/element.py: registry and regular expressions -/']
+	rows = []
+	for key, cls in sorted(dict.items(HEADER)):
+		sep = cls.join([b'\x00', b'\x01'])
+		assert sep.startswith(b'\x00') and sep.endswith(b'\x01')
+		rows.append('(%s, %s, %s, %s, %s)' % (lbytes(key.encode('ascii')), lbytes(cls.__name__.encode('ascii')), 'true' if cls.list_element else 'false', lbytes(cls.priority or b''), lbytes(sep[1:-1])))
+	o.append('def headerRegistry : List (List UInt8 × List UInt8 × Bool × List UInt8 × List UInt8) := [' + ', '.join(rows) + ']')
+	o.append('def headerDefaultJoin : List UInt8 := %s' % lbytes(HeaderElement.join([b'', b''])))
+	o.append('def headerNameReTable : List Bool := [' + ', '.join('true' if Headers.HEADER_RE.search(bytes([b])) else 'false' for b in range(256)) + ']')
+	o.append('def tspecialsTable : List Bool := [' + ', '.join('true' if HeaderElement.RE_TSPECIALS.search(bytes([b])) else 'false' for b in range(256)) + ']')
+	o.append('def reSplit : List UInt8 := %s' % lbytes(HeaderElement.RE_SPLIT.pattern))
+	o.append('def reParams : List UInt8 := %s' % lbytes(HeaderElement.RE_PARAMS.pattern))
+	o.append('def trailerForbidden : List (List UInt8) := [' + ', '.join(lbytes(x.encode()) for x in Trailer.forbidden_headers) + ']')
+	return o
+
+
 def generate():
 	body = ['/- GENERATED by harness/extract.py from %s — do not edit. -/' % 'the current /repo working tree', 'namespace Httoop.Gen', '']
 	for sec in SECTIONS:
